@@ -22,6 +22,7 @@ import TboxModel.C19.AesSpecProofs
 import TboxModel.C19.Round7Proofs
 import TboxModel.C19.Round8Proofs
 import TboxModel.C19.Round9Proofs
+import TboxModel.C19.Round10Proofs
 namespace Tbox.C19
 set_option maxRecDepth 100000
 
@@ -968,5 +969,71 @@ theorem C19_aes_unkeyed_roundtrip (o : Aes.Obj) (hw : ∀ i, (Aes.wAt o.w i).len
     Aes.invCipherMat_cipherMat (fun x => (C19_aes_sbox_inverse x).1) _ _ (Aes.transpose_length _) hw, Aes.transpose_transpose _ hb]
 
 example : ∀ i, (Aes.wAt (⟨[]⟩ : Aes.Obj).w i).length = 16 := by intro i; simp [Aes.wAt]
+
+/-! ## Round 10: aliased buffers (one memory for input and output) -/
+
+/-- `C19_b64_decode_in_place`: `Decode(p + src, n, p + dst, cap)` with text and output in ONE buffer, the output starting at or before
+the text (`dst ≤ src`; `dst = src` is the in-place call `Decode(p, n, p, cap)`). The model reads every character from the shared
+memory at the moment the code reads it and stores every byte into it. For EVERY memory content around the text, EVERY text (valid or
+not) and EVERY capacity, what the caller sees — the return value and that many bytes at the output pointer, or the refusal — is
+exactly what the call into a separate buffer gives: the write index never passes the read index. -/
+theorem C19_b64_decode_in_place (pre s post : List UInt8) (dst cap : Nat) (hd : dst ≤ pre.length) :
+    B64.ipView dst (B64.decodeIp (pre ++ s ++ post) pre.length s.length dst cap) = B64.decodeBuf s cap :=
+  B64.decodeIp_refines pre s post dst cap hd
+
+example : B64.decodeIp [7, 81, 85, 74, 68, 9] 1 4 1 3 = .ok (3, [7, 65, 66, 67, 68, 9]) := by decide +kernel
+example : (1 : Nat) ≤ ([7] : List UInt8).length := by decide
+
+/-- hence in place every call returns normally, with at most `cap` and at most `DecodeLength` bytes, and encode-then-decode-in-place
+gives the data back -/
+theorem C19_b64_decode_in_place_bounds (pre s post : List UInt8) (dst cap : Nat) (hd : dst ≤ pre.length) :
+    ∃ n out, B64.ipView dst (B64.decodeIp (pre ++ s ++ post) pre.length s.length dst cap) = .ok (n, out)
+      ∧ n ≤ cap ∧ out.length = n ∧ n ≤ B64.decodeLength s := by
+  rw [C19_b64_decode_in_place pre s post dst cap hd]; exact C19_b64_bounds s cap
+
+/-- `C19_b64_decode_in_place_frame`: whatever the placement of text and output inside the memory (overlapping or not), every call that
+returns leaves the memory length unchanged and every byte outside the output window `[dst, dst + cap)` untouched — no store beyond the
+capacity given, also when the stores land in the text itself -/
+theorem C19_b64_decode_in_place_frame (mem : List UInt8) (src n dst cap r : Nat) (m : List UInt8)
+    (e : B64.decodeIp mem src n dst cap = .ok (r, m)) :
+    m.length = mem.length ∧ ∀ i, (i < dst ∨ dst + cap ≤ i) → m[i]? = mem[i]? :=
+  B64.decodeIp_frame mem src n dst cap r m e
+
+example : B64.decodeIp [7, 81, 85, 74, 68, 9] 1 4 0 3 = .ok (3, [65, 66, 67, 74, 68, 9]) := by decide +kernel
+
+/-- the hypothesis is needed: an output pointer two bytes BEHIND the start of the text overwrites a character before it is read
+("QUJD" decoded to text+2: the first store replaces 'J' by 'A', the second replaces 'D' by '@', which is then refused): the caller
+gets 0 instead of "ABC" and the text is destroyed. One byte behind is still safe for this text. -/
+theorem C19_b64_decode_in_place_overlap_counterexample :
+    B64.decodeBuf [81, 85, 74, 68] 3 = .ok (3, [65, 66, 67])
+    ∧ B64.decodeIp [81, 85, 74, 68, 0, 0] 0 4 2 3 = .ok (0, [81, 85, 65, 64, 0, 0])
+    ∧ B64.ipView 1 (B64.decodeIp [81, 85, 74, 68, 0, 0] 0 4 1 3) = .ok (3, [65, 66, 67]) := by decide +kernel
+
+/-- `C19_ser_self_append_reserved`: `ser.append(own data + off, k)` with the source inside the written data. Raw mode, and vector mode
+whenever the capacity already covers `pos + k` (the caller reserved): the call is exactly the append of a COPY of those bytes.
+Decision against the statement: a source range inside the serializer's own storage is a valid "byte string as encoder input" only
+while that storage stays in place; like `vector::insert` with iterators into the vector itself, the unreserved case is the caller's. -/
+theorem C19_ser_self_append_reserved (s : Ser.S) (vcap off k : Nat) (h : off + k ≤ s.pos)
+    (hp : s.raw = false → s.pos ≤ s.mem.length) (hc : s.raw = false → s.pos + k ≤ max vcap s.mem.length) :
+    s.appendSelf vcap off k = some (s.appendRaw ((s.mem.drop off).take k)) := by
+  unfold Ser.S.appendSelf Ser.S.appendRaw
+  cases hr : s.raw
+  · have := hp hr; have := hc hr
+    rw [if_neg (by simp; omega)]; simp [this]
+  · rw [if_neg (by simp; omega)]; simp
+
+example : (Ser.S.newVec [1, 2, 3, 4] .big |>.appendSelf 4 0 0) = some (.ok (true, ⟨false, 0, [], .big, 0⟩)) := by decide +kernel
+example : (⟨false, 0, [1, 2, 3], .big, 3⟩ : Ser.S).appendSelf 8 1 2 = some (.ok (true, ⟨false, 0, [1, 2, 3, 2, 3], .big, 5⟩)) := by
+  decide +kernel
+
+/-- … and without the reservation: in vector mode, whenever `pos + k` exceeds the capacity, `resize` moves the block and `memcpy`
+reads the freed source — for every such call (the harness observes the AddressSanitizer report in a child process, as an `M` line) -/
+theorem C19_ser_self_append_dangles (s : Ser.S) (vcap off k : Nat) (hr : s.raw = false) (h : off + k ≤ s.pos)
+    (hp : s.pos ≤ s.mem.length) (hc : max vcap s.mem.length < s.pos + k) :
+    s.appendSelf vcap off k = some (.oob "read source freed by resize") := by
+  unfold Ser.S.appendSelf
+  rw [if_neg (by simp [hr]; omega)]; simp [hr]; omega
+
+example : (⟨false, 0, [1, 2, 3], .big, 3⟩ : Ser.S).appendSelf 3 1 2 = some (.oob "read source freed by resize") := by decide +kernel
 
 end Tbox.C19
